@@ -9,7 +9,7 @@
     start/end line/column statements for tokens and errors are tested by the check's oracle. *)
 From Coq Require Import NArith List.
 From SasLexer Require Import Gen.TokenType Gen.ErrorKind Gen.Channel Model.Base Model.Core Model.Buffer
-     Model.Lexer3 Spec.RefLex Proofs.Generic Proofs.Lines Proofs.LexLines Proofs.TokLines Proofs.OcAll Proofs.MacroFree.
+     Model.Lexer3 Spec.RefLex Proofs.Generic Proofs.Lines Proofs.LexLines Proofs.TokLines Proofs.ErrLines Proofs.OcAll Proofs.MacroFree.
 Import ListNotations.
 Open Scope N_scope.
 
@@ -74,6 +74,38 @@ Theorem C04_every_program_token_lines : forall first src (d : bool) (A : Type) (
 Proof. intros. apply (run_TLInv first); assumption. Qed.
 Print Assumptions C04_every_program_token_lines.
 
+(** Lines and columns of errors.  For every input and both profiles: if the run returns with the
+    monitor on, every reported error carries the 1-based line of its position (one plus the number
+    of line feeds before it) and, as column, the number of characters since the last line feed
+    before it - counted in the text after the byte-order mark, so the mark is not part of the
+    first line's columns.  [col_of p 0] = characters of [p] after its last line feed. *)
+Theorem C04_error_positions : forall (cfg : config) (src : list char),
+  let r := lex cfg src in
+  let '((bb, _), text) := split_bom src in
+  lr_outcome r = None ->
+  g_lines_ok (s_ghost (lr_state r)) = true ->
+  forall e, In e (lr_errors r) ->
+  forall pre rest, text = pre ++ rest -> blen pre + bb = e_byte e ->
+    e_line e = 1 + count_nl pre /\ e_col e = col_of pre 0.
+Proof. exact lex_error_positions. Qed.
+Print Assumptions C04_error_positions.
+
+Theorem C04_macro_free_error_positions : forall (msep : bool) (src : list char),
+  macro_free (body_of src) = true ->
+  let r := lex (mkCfg false msep) src in
+  let '((bb, _), text) := split_bom src in
+  forall e, In e (lr_errors r) ->
+  forall pre rest, text = pre ++ rest -> blen pre + bb = e_byte e ->
+    e_line e = 1 + count_nl pre /\ e_col e = col_of pre 0.
+Proof. exact mf_C04_macro_free_error_positions. Qed.
+Print Assumptions C04_macro_free_error_positions.
+
+Theorem C04_every_program_error_positions : forall src (d : bool) (A : Type) (p : prog A) (s : st),
+  InvPos src s -> LInv line0 src s -> EInv src s ->
+  match run d p s with Done _ s' => EInv src s' | Panic _ _ => True end.
+Proof. intros. apply run_EInv; assumption. Qed.
+Print Assumptions C04_every_program_error_positions.
+
 (** the invariant behind it holds for every program over the primitives *)
 Theorem C04_every_program : forall first src (d : bool) (A : Type) (p : prog A) (s : st),
   InvPos src s -> LInv first src s ->
@@ -97,6 +129,14 @@ Example c04_token_lines_example :
   (lr_outcome r, g_lines_ok (s_ghost (lr_state r)),
    match w_toks (s_buf (lr_state r)) with t :: _ => tt_eqb (t_type t) T_EOF | [] => false end) = (None, true, true) /\
   map (fun t => (t_byte t, t_line t)) (b_toks (lr_buffer r)) = [(0, 0); (5, 1); (9, 2); (11, 2); (12, 3); (13, 3); (14, 3)].
+Proof. vm_compute. split; reflexivity. Qed.
+
+(** errors: a BOM, an unterminated comment after two lines, and a missing '=' after multi-byte text *)
+Example c04_error_example :
+  let src := [65279; 37; 108; 101; 116; 32; 233; 32; 49; 59; 10; 120; 10; 47; 42; 32; 233] in
+  let r := lex (mkCfg true false) src in
+  (lr_outcome r, g_lines_ok (s_ghost (lr_state r))) = (None, true) /\
+  map (fun e => (e_byte e, e_line e, e_col e)) (lr_errors r) = [(11, 1, 7); (21, 3, 4)].
 Proof. vm_compute. split; reflexivity. Qed.
 
 (** ... and a macro-free text with line feeds in whitespace, a comment, a string, a datalines body *)
